@@ -308,9 +308,24 @@ loop:
 // readAll reads the whole stream of a session: it posts nothing, but waits until the
 // stream has been quiet for a moment after the expected last id showed up.
 func (n *inode) readAll(s sessionCred, untilId uint64) []streamed {
+	// the newest batch that has a message for this session ends the read
+	target := uint64(0)
+	first, _ := ircStore.FirstIndex()
+	for idx := node.LastIndex(); idx >= 1 && idx >= first && target == 0; idx-- {
+		if msgs, ok := outputStream.Get(robust.Id{Id: idx}); ok {
+			for _, m := range msgs {
+				if m.InterestingFor[s.Num] {
+					target = idx
+				}
+			}
+		}
+	}
+	if target == 0 {
+		return nil
+	}
 	msgs, _ := n.readStream(s, s.Auth, "0.0", func(m []streamed) bool {
-		return len(m) > 0 && m[len(m)-1].Id.Id >= untilId
-	}, 1500*time.Millisecond)
+		return len(m) > 0 && m[len(m)-1].Id.Id >= target
+	}, 3*time.Second)
 	return msgs
 }
 
